@@ -36,7 +36,8 @@ returns the same results and writes the same output as the real one. (An asserti
 checked call return a `panic` the real controller's callbacks never return.) The theorems about the real
 rewriter assume it for the runs they mention. It is decidable on concrete runs (examples at the end), and a
 theorem for controllers that never return a panic-class error themselves (`Thm/C02_RemovalFinal.lean`,
-`C02_resumeAtEndTag`, from pkg scan's `C06_relex_end_tag` and pkg inv's watermark invariant).
+`C02_resumeAtEndTag`, from pkg scan's `C06_relex_end_tag` and pkg inv's watermark invariant) and for the real
+controller (`C02_resumeAtEndTag_real`, hence `C02_real_final` / `C09_real_final` without this hypothesis).
 -/
 namespace LolHtml.Thm.C02
 open LolHtml LolHtml.Model LolHtml.Model.Chunk LolHtml.Model.Chunk.R
